@@ -32,7 +32,7 @@ V("c01-move-no-cycle-guard", ["C01"], "break", N, "Node.move_to",
   "        if new_parent is self or new_parent.is_descendant_of(self):\n            raise ValueError(\n                f\"Cannot move {self} below itself or one of its descendants\"\n            )\n", "", ["GUARD-CYCLE"])
 V("c01-register-no-rollback", ["C01", "C13", "C03"], "break", T, "Tree._register", "                    del self._node_by_id[node._node_id]\n", "", ["REG-CHK"])
 V("c01-unregister-pop0", ["C01", "C02"], "break", T, "Tree._unregister", "clones.pop(i)", "clones.pop(0)", ["UNREG-SHAPE"])
-V("c01-foreign-writer", ["C01", "C02"], "break", "diff.py", "_copy_children", "        add_set.add(n_dest._node_id)\n", "        add_set.add(n_dest._node_id)\n        n_dest._parent = dest\n", ["OWN-1"])
+V("c01-foreign-writer", ["C01"], "break", "diff.py", "_copy_children", "        add_set.add(n_dest._node_id)\n", "        add_set.add(n_dest._node_id)\n        n_dest._parent = dest\n", ["OWN-1"])
 V("c01-add-not-linked", ["C01", "C04"], "break", N, "Node.add_child", "            children.append(node)\n", "            pass\n", ["MUST", "SIB-ADD"])
 V("c01-filter-acc-rebind", ["C01", "C08"], "break", N, "Node.filter", "remove_nodes.extend(n.children)", "remove_nodes = n.children", ["ACC-REBIND", "PAIR-1", "SIB-FILTER", "ITER-INV"])
 V("c01-remove-iter-live", ["C01"], "break", N, "Node.remove", "for c in self.children.copy():", "for c in self.children:", ["ITER-INV"])
@@ -132,7 +132,7 @@ V("c06-tree-iterator-drops-method", ["C06"], "break", T, "Tree.iterator", "self.
 V("c06-walker-renamed", ["C06"], "break", N, "Node", "    def _iter_zigzag_rtl(self)", "    def _iter_zigzagrtl(self)", ["EXH-1"])
 V("c06-callback-called-directly", ["C06"], "break", N, "Node._visit_post", "        call_traversal_cb(callback, self, memo)\n", "        callback(self, memo)\n", ["EXH-2", "ORDER-TRAV"])
 V("c06-level-no-reset", ["C06"], "break", N, "Node._iter_level", "        while children:\n            next_level = []\n", "        next_level = []\n        while children:\n", ["ORDER-TRAV"])
-V("c06-keep-rename-children", ["C06"], "keep", N, "Node._iter_pre", "children", "kids", all=True)
+V("c06-keep-rename-children", ["C06"], "keep", N, "Node._iter_pre", "        children = self._children\n        if children:\n            for c in children:\n", "        kids = self._children\n        if kids:\n            for c in kids:\n")
 V("c06-keep-rename-loopvar", ["C06"], "keep", N, "Node._visit_pre", "            for c in children:\n                c._visit_pre(callback, memo)\n", "            for child in children:\n                child._visit_pre(callback, memo)\n")
 V("c06-keep-rename-res", ["C06"], "keep", C, "call_traversal_cb", "res", "result", all=True)
 V("c06-keep-iter-post-children-attr", ["C06", "C01"], "keep", N, "Node._iter_post", "for c in self.children:", "for c in self._children or ():")
@@ -141,11 +141,11 @@ V("c06-keep-iter-post-children-attr", ["C06", "C01"], "keep", N, "Node._iter_pos
 V("c07-source-reversed-prefix", ["C07"], "break", N, "Node.add_child", "child._root.children.copy()", "child._root.children", ["PURE"])
 V("c07-copy-id-prefix", ["C07", "C05"], "break", N, "Node.add_child", "            data_id = source_node._data_id\n", "", ["COPY-ID"])
 V("c07-addfrom-drops-id", ["C07"], "break", N, "Node._add_from", "self.add_child(child.data, data_id=child._data_id)", "self.add_child(child.data)", ["COPY-ID"])
-V("c07-share-children", ["C07", "C01"], "break", N, "Node.add_child", "            node._add_from(source_node)\n", "            node._children = source_node._children\n", ["ALIAS-STORE", "MUST"])
+V("c07-share-children", ["C07", "C01"], "break", N, "Node.add_child", "            node._add_from(source_node)\n", "            node._children = source_node._children\n", ["ALIAS-STORE", "MUST", "PAIR-1"])
 V("c07-copyto-drops-deep", ["C07"], "break", N, "Node.copy_to", "return target.add_child(self, before=before, deep=deep)", "return target.add_child(self, before=before)", ["KWARGS-FWD"])
 V("c07-treecopyto-shallow", ["C07"], "break", T, "Tree.copy_to", "add_self=False, before=None, deep=deep", "add_self=True, before=None, deep=deep", ["SHORTCUT"])
 V("c07-addfrom-twice", ["C07"], "break", N, "Node._add_from", "                new_child._add_from(child, predicate=None)\n", "                new_child._add_from(child, predicate=None)\n                new_child._add_from(child, predicate=None)\n", ["COPY-LINEAR"])
-V("c07-copy-touches-source-meta", ["C07", "C11"], "break", "diff.py", "_copy_children", "            n_dest.set_meta(*meta)\n", "            n.set_meta(*meta)\n", ["PURE"])
+V("c07-copy-touches-source-meta", ["C11"], "break", "diff.py", "_copy_children", "            n_dest.set_meta(*meta)\n", "            n.set_meta(*meta)\n", ["PURE"])
 V("c07-keep-rename-newchild", ["C07"], "keep", N, "Node._add_from", "new_child", "nc", all=True)
 V("c07-keep-rename-newtree", ["C07", "C18"], "keep", T, "Tree.copy", "new_tree", "t2", all=True)
 
@@ -156,7 +156,7 @@ V("c08-copy-select-no-branch", ["C08"], "break", N, "Node._add_filtered", "     
 V("c08-copy-no-pop", ["C08"], "break", N, "Node._add_filtered", "                parent_stack.pop()\n", "", ["COPY-LINEAR"])
 V("c08-predicate-raise-lost", ["C08"], "break", C, "call_predicate", "    except IterationControl as e:\n        return e  #", "    except IterationControl as e:\n        return None  #", ["EXH-2"])
 V("c08-filter-stop-ignored", ["C08"], "break", N, "Node.filter", "                elif isinstance(res, StopTraversal):\n                    raise res\n", "", ["SIB-FILTER"])
-V("c08-filtered-drops-predicate", ["C08"], "break", T, "Tree.filtered", "return self.copy(predicate=predicate)", "return self.copy()", ["KWARGS-FWD"])
+V("c08-filtered-drops-predicate", ["C08"], "break", T, "Tree.filtered", "return self.copy(predicate=predicate)", "return self.copy()", ["KWARGS-FWD", "SHORTCUT"])
 V("c08-skip-keepself-no-ancestors", ["C08"], "break", N, "Node.filter", "                        remove_nodes.extend(n.children)\n                        must_keep = True\n", "                        remove_nodes.extend(n.children)\n", ["SIB-FILTER"])
 V("c08-predicate-called-directly", ["C08"], "break", N, "Node.filter", "res = call_predicate(predicate, n)", "res = predicate(n)", ["EXH-2", "SIB-FILTER"])
 V("c08-keep-rename-acc", ["C08", "C01"], "keep", N, "Node.filter", "remove_nodes", "to_remove", all=True)
@@ -179,7 +179,7 @@ V("c10-getindex-prefix", ["C10"], "break", N, "Node.get_index", "_index_of(self.
 V("c10-islast-wrong-end", ["C10"], "break", N, "Node.is_last_sibling", "self._parent._children[-1]", "self._parent._children[0]", ["PARENT-WALK"])
 V("c10-depth-off-by-one", ["C10"], "break", N, "Node.calc_depth", "        depth = 0\n", "        depth = 1\n", ["PARENT-WALK"])
 V("c10-descendant-by-equality", ["C10"], "break", N, "Node.is_descendant_of", "if parent is other:", "if parent == other:", ["PARENT-WALK"])
-V("c10-parent-never-none", ["C10", "C15"], "break", N, "Node.parent", "return p if p._parent else None", "return p", ["PARENT-WALK"])
+V("c10-parent-never-none", ["C10"], "break", N, "Node.parent", "return p if p._parent else None", "return p", ["PARENT-WALK"])
 V("c10-siblings-by-equality", ["C10"], "break", N, "Node.get_siblings", "if n is not self", "if n != self", ["PARENT-WALK"])
 V("c10-query-mutates", ["C10"], "break", N, "Node.get_parent_list", "        res = []\n", "        res = []\n        self._meta = None\n", ["PURE"])
 V("c10-keep-rename-pe", ["C10"], "keep", N, "Node.calc_depth", "pe", "anc", all=True)
@@ -189,7 +189,7 @@ V("c10-keep-rename-root", ["C10"], "keep", N, "Node.get_top", "root", "top", all
 V("c11-swapped-inputs", ["C11"], "break", "diff.py", "diff_tree", "compare(t0._root, t1._root, t2._root)", "compare(t1._root, t0._root, t2._root)", ["DIFF"])
 V("c11-removed-marked-added", ["C11"], "break", "diff.py", "diff_tree.compare", "c2.set_meta(\"dc\", DC.REMOVED)", "c2.set_meta(\"dc\", DC.ADDED)", ["DIFF"])
 V("c11-order-marks-always", ["C11"], "break", "diff.py", "diff_tree.compare", "                if ordered:\n", "                if True:\n", ["DIFF"])
-V("c11-marks-source", ["C11", "C07"], "break", "diff.py", "_copy_children", "            n_dest.set_meta(*meta)\n", "            n.set_meta(*meta)\n", ["PURE"])
+V("c11-marks-source", ["C11"], "break", "diff.py", "_copy_children", "            n_dest.set_meta(*meta)\n", "            n.set_meta(*meta)\n", ["PURE"])
 V("c11-reduce-wrong-key", ["C11"], "break", "diff.py", "diff_tree", "node.get_meta(\"dc\")", "node.get_meta(\"dc_\")", ["DIFF"])
 V("c11-added-by-first-side", ["C11"], "break", "diff.py", "diff_tree.compare", "        for c1 in p1.children:  #", "        for c1 in p0.children:  #", ["DIFF"])
 V("c11-keep-rename-added", ["C11"], "keep", "diff.py", "diff_tree", "removed_nodes", "removed", all=True)
